@@ -30,11 +30,11 @@ REQUIRED = ["eval:make_counterfactual_graph", "eval:merge_pw", "C18:probabilitie
 TIMEOUT = {"quick": 900, "thorough": 7200}
 
 
-def run_case(ctx, gd, ev, cls, via="cg", rng=None, force_again=False):
+def run_case(ctx, gd, ev, cls, via="cg", rng=None, force_again=False, cards=None):
     from y0.algorithm.identify.cg import make_counterfactual_graph
 
     g = gg.to_nx(gd)
-    kernel.LOG.reset_case({"graph": gd, "event": ev, "via": via})
+    kernel.LOG.reset_case({"graph": gd, "event": ev, "via": via, **({"cards": cards} if cards else {})})
     n0 = kernel.LOG.counters.get("eval:merge_pw", 0)
     res = None
     try:
@@ -100,6 +100,16 @@ def run_shard(ctx):
             continue
         classes[cls] = classes.get(cls, 0) + 1
         run_case(ctx, gd, ev, cls, via="cg" if i % 4 else "id_star", rng=rng)
+    # wide graphs: the event lives on a small core; the padding nodes are constants in the exact models
+    for i in range(ctx.share({"quick": 600, "thorough": 8000}[ctx.tier])):
+        core = gg.random_admg(rng, rng.choice([2, 3, 3, 4]))
+        ev, cls = gev.random_event(rng, core)
+        if not ev or cls == "contradictory_pair":
+            continue
+        total = 64 if i % 12 == 0 else rng.randint(10, 14)
+        gd, pad = gg.embed_wide(core, rng, total, **({"p_di": 0.02, "p_bi": 0.01} if total == 64 else {}))
+        classes["wide:" + cls] = classes.get("wide:" + cls, 0) + 1
+        run_case(ctx, gd, ev, cls, via="cg", rng=rng, cards={w: 1 for w in pad})
     ctx.extras["event_classes"] = classes
 
 
@@ -116,7 +126,8 @@ def replay(case):
     import random
 
     run_case(_C(), gd, [[c[0], [list(w) for w in c[1]], c[2]] for c in case["event"]], "replay", via=case.get("via", "cg"),
-             rng=random.Random(0) if case.get("again") else None, force_again=bool(case.get("again")))
+             rng=random.Random(0) if case.get("again") else None, force_again=bool(case.get("again")),
+             cards=case.get("cards"))
 
 
 def install_for_suite():
